@@ -8,7 +8,8 @@
                       getDataSegmentOffset, mostCommonGetDataSegmentSize
      check/bounds.go  BytesRange (on Go ints, i.e. after the int(uint64) conversions)
      table.go         ParseEntryHeadersFrom, ParseTable, GetPointerCoordinates,
-                      GetHeadersTableRangeFrom, GetTableFrom, Table.GetEntriesFrom, Table.WriteTo
+                      GetHeadersTableRangeFrom, GetTableFrom, Table.GetEntriesFrom, Table.WriteTo,
+                      Table.WriteToFirmwareImage
      get_entries.go   GetEntriesFrom
      entry.go         NewEntry, entryInitDataSegmentBytes, EntryDataSegmentCoordinates,
                       EntryDataSegmentSize and every CustomGetDataSegmentSize, sliceOrCopyBytesFrom,
@@ -25,7 +26,7 @@
    fixes/C14-recalc-sacm-type.diff (see [most_common] and [recalc_entry]).
 
    Not modelled: encoding/json of the headers, String/GoString, Table.First,
-   WriteToFirmwareImage, the parsing of ACM / key manifest / boot policy manifest
+   the parsing of ACM / key manifest / boot policy manifest
    *contents* (ParseData and below), the non-ReadWriteSeeker branch of
    sliceOrCopyBytesFrom (copyBytesFrom), the cmds/fittool CLI. *)
 From Fiano Require Import Base.Bytes Gen.Consts.
@@ -274,6 +275,20 @@ Definition inject (img : bytes) (es : list entry) (off : Z) : bytes * Z :=
       let '(st2, _, ok2) := write_headers st1 p2 (map e_hdr es) in
       if negb ok2 then (st2, E_HDR_WRITE) else inject_datas st2 es
     end
+  end.
+
+(* ---- Table.WriteToFirmwareImage: find the table through the FIT pointer, write the headers there ----
+   (what fittool add_raw_headers / set_raw_headers / remove_headers do after changing the table).
+   Result: the final storage and the error class (0 = nil); a table that cannot be located is the
+   error of GetHeadersTableRangeFrom. *)
+Definition E_WT_SEEK : Z := 2.
+Definition E_WT_WRITE : Z := 3.
+Definition write_table (img : bytes) (hs : list hdr) : outcome (bytes * Z) :=
+  do r <- table_range img;
+  match rws_seek img (s64 (fst r)) with
+  | None => Ok (img, E_WT_SEEK)
+  | Some p => let '(st, _, ok) := write_headers img p hs in
+              Ok (st, if ok then 0 else E_WT_WRITE)
   end.
 
 (* ---- RecalculateHeaders ---- *)
